@@ -7,6 +7,7 @@ import (
 	"os"
 	"sort"
 	"strings"
+	"sync/atomic"
 	"time"
 
 	"github.com/syndtr/goleveldb/leveldb"
@@ -59,6 +60,7 @@ type op struct {
 	Limit  *hexbytes `json:"limit,omitempty"`
 	NoFill bool      `json:"nofill,omitempty"`
 	Moves  []move    `json:"moves,omitempty"`
+	FaultK int       `json:"fault_k,omitempty"` // fault_walk: the FaultK-th table read from now on fails
 }
 
 type dbCase struct {
@@ -375,6 +377,17 @@ func genDBCase(r *vlib.RNG, small bool, maxMove int) *dbCase {
 			id := g.nextID
 			g.iterNew("tr", 0)
 			g.iterWalk(id)
+		}
+	}
+	// walks under a table read fault (vstor): only where no background read can consume the fault
+	if c.Settled && c.Opts.Sampling == 0 && !g.trOpen {
+		for i, n := 0, r.Range(0, 3); i < n; i++ {
+			o := op{T: "fault_walk", View: "db", NoFill: r.Bool(), FaultK: r.Pick(3, 3, 2, 2, 1, 1, 1, 1) + r.Pick(4, 1)*r.Intn(12),
+				Moves: genMoves(r, walkLen(r, g.maxMove), g.pool, g.pool)}
+			if r.Chance(1, 2) {
+				o.Start, o.Limit = g.bound(), g.bound()
+			}
+			g.ops = append(g.ops, o)
 		}
 	}
 	c.Ops = g.ops
@@ -728,6 +741,10 @@ func (x *dbExec) run() (ok bool) {
 			if !x.iterWalk(o) {
 				ok = false
 			}
+		case "fault_walk":
+			if !x.faultWalk(o) {
+				ok = false
+			}
 		case "iter_release":
 			if is := x.iters[o.ID]; is != nil {
 				x.emitK(is)
@@ -882,6 +899,95 @@ func (x *dbExec) iterWalk(o op) bool {
 	x.res.Eval(fmt.Sprintf("%s/%d/%d", x.label, o.ID, base), nt)
 	if nt {
 		x.nontrivial++
+	}
+	return true
+}
+
+// faultWalk: a fresh DB iterator walked while the FaultK-th table read fails (non-corruption error).  Until
+// Error() is set the outputs must be the cursor's; once it is set every call returns false, not valid, nil
+// key and value, and the error stays.  The one tolerated deviation is the known defect of dbIter.prev()
+// (a stale pair returned by a backward call after the read failed, error not yet recorded).
+func (x *dbExec) faultWalk(o op) bool {
+	var ro *opt.ReadOptions
+	if o.NoFill {
+		ro = &opt.ReadOptions{DontFillCache: true}
+	}
+	var rg *util.Range
+	if o.Start != nil || o.Limit != nil {
+		rg = &util.Range{}
+		if o.Start != nil {
+			rg.Start = *o.Start
+		}
+		if o.Limit != nil {
+			rg.Limit = *o.Limit
+		}
+	}
+	exp := sortedView(x.model, x.cmp, o.Start, o.Limit)
+	cur := newCursor(exp, x.cmp)
+	f := &vstor.Fault{Kind: vstor.OpRead, Type: storage.TypeTable, K: o.FaultK}
+	x.vs.AddFault(f)
+	defer x.vs.Heal()
+	bad, known := "", ""
+	hung, pan := runGuarded(30*time.Second, func() {
+		it := x.db.NewIterator(rg, ro)
+		defer it.Release()
+		errSeen := false
+		for i, m := range o.Moves {
+			ob := applyIter(it, m)
+			err := it.Error()
+			if errSeen {
+				if ob.Ret || it.Valid() || ob.Key != nil || ob.Value != nil || err == nil {
+					bad = fmt.Sprintf("call %d %s after an error: returned %v valid %v key %x value %x error %v", i, m, ob.Ret, it.Valid(), ob.Key, ob.Value, err)
+					return
+				}
+				continue
+			}
+			if err != nil {
+				if f.Hits == 0 {
+					bad = fmt.Sprintf("call %d %s: Error() = %v although no read failed", i, m, err)
+					return
+				}
+				if ob.Ret || it.Valid() || ob.Key != nil || ob.Value != nil {
+					bad = fmt.Sprintf("call %d %s: Error() = %v but returned %v valid %v key %x value %x", i, m, err, ob.Ret, it.Valid(), ob.Key, ob.Value)
+					return
+				}
+				errSeen = true
+				x.res.Count("db_fault_walks_error_recorded", 1)
+				continue
+			}
+			ok, k, v := cur.apply(m)
+			if ob.Ret != ok || it.Valid() != ok || (ok && (!bytes.Equal(ob.Key, k) || !bytes.Equal(ob.Value, v))) || (!ok && (ob.Key != nil || ob.Value != nil)) {
+				d := fmt.Sprintf("call %d %s under a table read fault (reads failed so far: %d): returned %v key %x value %x, Error nil, cursor says %v key %x value %x", i, m, f.Hits, ob.Ret, ob.Key, ob.Value, ok, k, v)
+				if f.Hits > 0 && ob.Ret && (m.Op == "L" || m.Op == "P") {
+					known = "dbiter-prev-stale-on-raw-error"
+				}
+				bad = d
+				return
+			}
+		}
+	})
+	x.res.Count("db_fault_walks", 1)
+	if f.Hits > 0 {
+		x.res.Count("db_fault_walks_fault_fired", 1)
+	}
+	switch {
+	case hung:
+		x.violate("fault walk: a call did not return within 30s")
+		return false
+	case pan != nil:
+		x.violate(fmt.Sprintf("fault walk: panic %v", pan))
+		return false
+	case bad != "" && known != "":
+		x.res.Count("db_fault_known_"+known, 1)
+		// reported once per run at DB level (and twice at component level, errors.go)
+		if atomic.AddInt32(&knownReportedDB, 1) <= 1 {
+			atomic.AddInt32(&knownReported, 1)
+			x.res.ViolateKnown(fmt.Sprintf("DB iterator (%s, comparer %d): %s", x.label, x.c.Cid, bad), x.c, known)
+		}
+		return true
+	case bad != "":
+		x.violate("fault walk: " + bad)
+		return false
 	}
 	return true
 }
